@@ -809,7 +809,9 @@ func (s *State) extendFunctionEnv(
 		params = params[:n]
 		// Expending the last argument expecting it to be "..", but any other array will do too.
 		if len(args) > 0 && args[len(args)-1].Type() == object.ARRAY {
-			args = append(args[:len(args)-1], object.Elements(args[len(args)-1])...)
+			// (new storage: the caller's slice is the memoization key of this call.)
+			last := len(args) - 1
+			args = append(args[:last:last], object.Elements(args[last])...)
 		}
 		if len(args) >= n {
 			extra = args[n:]
